@@ -63,7 +63,9 @@ SUPPORTED_MEMORY_WIDTHS: frozenset[int] = frozenset({8, 16, 32, 64})
 
 
 _LZMA_FORMAT = lzma.FORMAT_RAW
-_LZMA_DECOMPRESSION_FILTERS: List[Dict[str, int]] = [{"id": lzma.FILTER_LZMA2}]
+# A raw LZMA2 stream doesn't carry its dictionary size, and the decoder's default (8MiB) is smaller than what the
+# compression presets 7-9 use (16/32/64MiB). The decoder's dictionary must cover the largest one.
+_LZMA_DECOMPRESSION_FILTERS: List[Dict[str, int]] = [{"id": lzma.FILTER_LZMA2, "dict_size": 1 << 26}]
 
 
 def _lzma_compression_filters(dw: int, preset: int) -> List[Dict[str, int]]:
